@@ -103,6 +103,37 @@ func (m *rxModel) gapBlocks() []wGap {
 	return out
 }
 
+// normaliseSack returns the canonical (cum, gaps) describing the same set of TSNs.
+func normaliseSack(cum uint32, gaps []wGap) (uint32, []wGap) {
+	type iv struct{ s, e int }
+	var ivs []iv
+	for _, g := range gaps {
+		ivs = append(ivs, iv{int(g.start), int(g.end)})
+	}
+	adv := 0
+	var out []iv
+	for _, v := range ivs {
+		if v.s <= adv+1 && len(out) == 0 {
+			if v.e > adv {
+				adv = v.e
+			}
+			continue
+		}
+		if n := len(out); n > 0 && v.s <= out[n-1].e+1 {
+			if v.e > out[n-1].e {
+				out[n-1].e = v.e
+			}
+			continue
+		}
+		out = append(out, v)
+	}
+	var res []wGap
+	for _, v := range out {
+		res = append(res, wGap{uint16(v.s - adv), uint16(v.e - adv)})
+	}
+	return cum + uint32(adv), res
+}
+
 func gapsEqual(a, b []wGap) bool {
 	if len(a) != len(b) {
 		return false
@@ -148,6 +179,8 @@ type sideMon struct {
 	lastDataDlv  time.Duration
 	needAckSince time.Duration // earliest delivery time of accepted DATA not yet covered by an emitted SACK (-1 = none)
 
+	resetPerformed map[uint32]bool   // request sequence numbers this endpoint answered with "performed"
+	replayedReset  map[uint16]int64  // stream -> event seq of a delivered reset request whose number had already been performed
 	fwdNoStream map[uint16]bool // a FORWARD-TSN named this stream when the endpoint had no such stream
 	fwdUMID  map[uint16]uint32 // highest unordered MID listed by an I-FORWARD-TSN delivered here, per stream
 	snapCwnd uint32
@@ -325,6 +358,15 @@ func (m *wireMon) onEmit(p *wirePacket) {
 			m.checkSack(X, p, c)
 		case wtSHUTDOWN:
 			m.checkCum(X, c.cumTSN, "SHUTDOWN")
+		case wtRECONFIG:
+			for _, rp := range c.reconfig {
+				if rp.typ == 16 && rp.result == 1 {
+					if sm.resetPerformed == nil {
+						sm.resetPerformed = map[uint32]bool{}
+					}
+					sm.resetPerformed[rp.respSN] = true
+				}
+			}
 		case wtFORWARDTSN, wtIFORWARDTSN:
 			m.checkForwardTSN(X, p, c)
 		}
@@ -513,6 +555,18 @@ func (m *wireMon) onDeliver(to int, p *wirePacket, data []byte) {
 				sm.inProgress = append(sm.inProgress, nm)
 				cur = nm
 			}
+		case c.typ == wtRECONFIG:
+			for _, rp := range c.reconfig {
+				if rp.typ == 13 && sm.resetPerformed[rp.reqSN] {
+					if sm.replayedReset == nil {
+						sm.replayedReset = map[uint16]int64{}
+					}
+					for _, sid := range rp.sids {
+						sm.replayedReset[sid] = m.w.evSeq
+					}
+					m.w.probe("reset-request-replayed")
+				}
+			}
 		case c.typ == wtSACK || c.typ == wtSHUTDOWN:
 			sm.pendingAck = append(sm.pendingAck, c)
 		case c.typ == wtINIT || c.typ == wtINITACK:
@@ -608,7 +662,9 @@ func (m *wireMon) checkSack(E int, p *wirePacket, c *wChunk) {
 	m.checkCum(E, c.cumTSN, "SACK")
 	prevEnd := 0
 	for i, g := range c.gaps {
-		if g.start < 2 || g.end < g.start || (i > 0 && int(g.start) <= prevEnd+1) {
+		// (a block starting at offset 1, or adjacent blocks, are redundant but truthful: the property
+		// demands that named TSNs were received, not a canonical encoding)
+		if g.start < 1 || g.end < g.start || (i > 0 && int(g.start) <= prevEnd) {
 			w.violate("C05", "gap-malformed", "%s emitted SACK with invalid gap blocks %v (cum %d)", m.name(E), c.gaps, c.cumTSN)
 			return
 		}
@@ -626,8 +682,11 @@ func (m *wireMon) checkSack(E int, p *wirePacket, c *wChunk) {
 	if sm.model != nil && sm.model.init && sm.ample && !sm.sawCorrupt && m.props["C05.complete"] {
 		cands := append([]*rxModel{sm.model}, sm.inProgress...)
 		ok := false
+		// compare the sets of acknowledged TSNs: normalise the SACK (advance through a block
+		// that starts right after the cumulative point, merge adjacent blocks)
+		ncum, ngaps := normaliseSack(c.cumTSN, c.gaps)
 		for _, cm := range cands {
-			if cm.cum == c.cumTSN && gapsEqual(cm.gapBlocks(), c.gaps) {
+			if cm.cum == ncum && gapsEqual(cm.gapBlocks(), ngaps) {
 				ok = true
 				break
 			}
